@@ -102,10 +102,20 @@ class Probe:
 
     # ------------------------------------------------------------------ helpers
     def const(self, name):
-        for k, it in self.f.consts.items():
-            if k.split("::")[-1] == name:
-                return it["e"]
-        return None
+        """The initialiser of the constant `name` as seen from the function being evaluated: its own module first, then the
+        enclosing modules, then a unique constant of that name anywhere in the crate."""
+        mod = tuple(self.cur[-1].module) if self.cur else tuple(self.module)
+        hits = [(k, it) for k, it in self.f.consts.items() if k.split("::")[-1] == name]
+        if not hits:
+            return None
+        for i in range(len(mod), -1, -1):
+            for k, it in hits:
+                if tuple(k.split("::")[:-1]) == mod[:i]:
+                    return it["e"]
+        if len(hits) == 1:
+            return hits[0][1]["e"]
+        # associated constants (`Type::NAME`) and imported ones: a unique owner type is fine, several are ambiguous
+        raise NoEval("constant %s is defined in several modules" % name)
 
     def find_fn(self, segs):
         if len(segs) == 1:
